@@ -7,6 +7,7 @@ from vf import meta as vmeta, sandbox, target
 from vf.engine import Outcome, Violation
 from vf.gen import edits, trees
 from vf.props import common
+from vf.props import c07
 from vf.props.c07 import apply_edit
 
 ID = "C06"
@@ -39,9 +40,14 @@ def strategy(tier):
         cli = route == "cli"
         P = draw(st.sampled_from([16384, 16384, 32768]))
         t = draw(trees.tree(P, max_files=6, cli_safe=cli, big=False, modes=["rnd", "nz"]))
-        return {"tree": t, "P": P, "creator": creator, "route": route,
-                "opts": draw(edits.create_options(cli_safe=cli)),
-                "edits": draw(st.lists(edits.edit_request(), min_size=0, max_size=5))}
+        c = {"tree": t, "P": P, "creator": creator, "route": route,
+             "opts": draw(edits.create_options(cli_safe=cli)),
+             "edits": draw(st.lists(edits.edit_request(), min_size=0, max_size=5))}
+        if draw(st.integers(0, 4)) == 0:
+            # a foreign, canonical metafile with unknown (nested) keys, then edited: what edit writes must be canonical too
+            c["foreign"] = draw(c07.source_strategy().filter(lambda s: s["kind"] == "ref"))
+            c["edits"] = draw(st.lists(edits.edit_request(), min_size=1, max_size=5))
+        return c
     return case()
 
 
@@ -114,12 +120,26 @@ def run_case(case):
     with sandbox.Scratch("c06") as scr:
         root = common.make(scr, tree)
         out = os.path.join(scr, "out", "o.torrent")
-        try:
-            common.create(case["creator"], case["route"], root, out, P, extra_kw=dict(case["opts"]),
-                          extra_cli=edits.options_to_cli(case["opts"]))
-        except Exception as e:
-            return Outcome(Violation("C06:create-exception:%s" % type(e).__name__, "create raised %r" % (e,)), True)
-        m, v = check_file(out, version, "create")
+        if "foreign" in case:
+            try:
+                src = c07.build_source(os.path.join(scr, "foreign"), {"tree": tree, "source": case["foreign"]})
+                import shutil
+                shutil.copyfile(src, out)
+                version = case["foreign"]["version"]
+                P = 16384
+            except Exception as e:
+                return Outcome(Violation("C06:setup-exception:%s" % type(e).__name__, "building the foreign metafile raised %r" % (e,)), False)
+            m, v = check_file(out, version, "foreign-input")
+            if v:
+                from vf.engine import HarnessError
+                raise HarnessError("reference encoder produced a non-canonical metafile: %s" % v.msg)
+        else:
+            try:
+                common.create(case["creator"], case["route"], root, out, P, extra_kw=dict(case["opts"]),
+                              extra_cli=edits.options_to_cli(case["opts"]))
+            except Exception as e:
+                return Outcome(Violation("C06:create-exception:%s" % type(e).__name__, "create raised %r" % (e,)), True)
+            m, v = check_file(out, version, "create")
         big = sum(1 for f in tree["files"] if f["size"] > P)
         classes = []
         nontrivial = version != 1 and big >= 2
